@@ -348,6 +348,9 @@ func judgeHostile(c hostileCase, rec *hx.Rec) string {
 		add(outside, "touched_outside_loaded_code")
 		add(m <= 5, "core_le_5")
 		add(m > 256, "core_gt_256")
+		add(len(c.Ws) > 64, "more_than_64_warriors")
+		add(c.Run >= 500, "stepped_ge_500_cycles")
+		add(c.Cfg.Processes > 256 && c.Cfg.Processes < 1<<20, "process_limit_in_hundreds_or_thousands")
 		add(c.Cfg.ReadLimit > m || c.Cfg.WriteLimit > m, "limit_above_core")
 		rec.Case(outside && (died || split), hx.HashJSON(c), func() any {
 			return map[string]any{"cfg": c.Cfg, "battle": compactBattle(battleCase{Ws: c.Ws, Offs: c.Offs}), "steps": c.Run}
